@@ -22,7 +22,7 @@ def is_counter_increment(kind, detail):
     return False
 
 
-def run_census(ctx, R, reach, table_file, skip_kinds=("cast", "alloc"), skip_overflow_add=True):
+def run_census(ctx, R, reach, table_file, skip_kinds=("cast", "alloc", "loop"), skip_overflow_add=True):
     F = ctx.facts
     path = os.path.join(VERIF, "rules", "tables", table_file)
     table = json.load(open(path)) if os.path.exists(path) else {"residual": {}}
